@@ -66,6 +66,8 @@ func init() {
 		c.Run.Explainf("C17 (output is all-or-nothing): three functions. (1) (*Mocker).Mock is interpreted abstractly, path-sensitively (every fallible call — interface lookup of the k-th of n names, template execution, formatting, the write — returns an abstract error that is nil or not; all combinations are explored, no solver): on every path the caller's writer is written at most once, as the last event, with the formatted bytes of a local buffer the template was executed into; a failure of anything ends the run at once and is returned. (2) run (package main, go/cfg): with -out set Mock writes into a local buffer, without it to os.Stdout; os.MkdirAll/os.WriteFile are reachable only through the nil branches of the error tests of moq.New and Mock; the file content is that buffer; MkdirAll precedes the write and is checked; the write is last and its error returned. (3) main: on failure the error is printed to os.Stderr on every path, never to stdout, and every exit is os.Exit with a non-zero constant; on success no non-zero exit.")
 		c.Run.Assumef("what the operating system does inside a failing os.WriteFile (a truncated file) and a writer that fails after b bytes are outside static reach")
 		cliAllOrNothing(c)
+		// with -rm the old file is "just gone" whatever fails afterwards: the removal comes before the load
+		cliRemove(c)
 		// an unloadable package is a failure, whatever its errors say
 		loadErrorsTable(c)
 		c.Run.Floor("G-CLI/errors", 4)
